@@ -12,6 +12,7 @@ def run(ctx):
     s = ctx['seed'] + 9
     return run_parts(ctx, [
         Part('joins', 'corr_joins', 'run', [s, 300 if q else 5000, None, 0.15, 0.5], specs={'empty_spec', 'sound_spec'}),
+        Part('filter_wrapper_code', 'corr_filterwrappergen', 'run', [s, 100 if q else 2000], count_exceptions=False),
         Part('wrapper_code', 'corr_wrappergen', 'run', [s, 100 if q else 2000], count_exceptions=False),
         Part('filter_tables', 'corr_filters', 'run_tables', [s, 150 if q else 2500, None, 0.5], specs={'empty_spec', 'sound_spec'}),
         Part('join_loop_code', 'corr_joingen', 'run', [s, 100 if q else 2000], count_exceptions=False),
